@@ -197,4 +197,8 @@ def stackCost {ι : Type} (len : ι → Nat) : List ι → Int
   | [] => 0
   | x :: xs => 8 + (len x : Int) + stackCost len xs
 
+/-- the potential Φ of one VM: `runLimit + stackCost(dataStack) + stackCost(altStack)` -/
+def frameA {μ ι : Type} (M : MemOps μ ι) (f : Frame ι) : Int :=
+  f.runLimit + stackCost M.len f.data + stackCost M.len f.alt
+
 end BytomModel.VM
